@@ -400,7 +400,7 @@ impl Clone for RowIndex {
 }
 pub uninterp spec fn rows(g: GroupedRowIndices, event_type: Seq<char>) -> Seq<RowIndex>;
 pub uninterp spec fn zones_of(m: Zones, event_type: Seq<char>) -> Option<Seq<CandidateZone>>;
-pub uninterp spec fn ts_of(m: SequenceMatcher, zones: Seq<CandidateZone>, row: RowIndex) -> u64;
+pub uninterp spec fn ts_of(m: SequenceMatcher, zones: Seq<CandidateZone>, row: RowIndex) -> i64;
 pub uninterp spec fn where_ok(m: SequenceMatcher, type1: Seq<char>, zones1: Seq<CandidateZone>, row1: RowIndex, type2: Seq<char>, zones2: Seq<CandidateZone>, row2: RowIndex) -> bool;
 
 /// E6: stands for `group.rows_by_type.get(event_type).map(|v| v.as_slice()).unwrap_or(&[])`
@@ -416,7 +416,7 @@ impl ZoneMap<String, Vec<CandidateZone>> {
 }
 impl SequenceMatcher {
     #[verifier::external_body]
-    pub fn get_timestamp(&self, zones: &[CandidateZone], row_index: &RowIndex) -> (r: u64)
+    pub fn get_timestamp(&self, zones: &[CandidateZone], row_index: &RowIndex) -> (r: i64)
         ensures r == ts_of(*self, zones@, *row_index)
     { unimplemented!() }
     #[verifier::external_body]
